@@ -267,6 +267,13 @@ def _get_action_form_arguments(left, right):
         coefficients += (right,)
     elif isinstance(right, Argument):
         arguments = left_args + (right,)
+    elif isinstance(right, Sum):
+        # A sum of coefficients (Action distributes over it): needed for
+        # the arguments of the `ZeroBaseForm` when `left` is zero.
+        from ufl.algorithms.analysis import extract_coefficients
+
+        arguments = left_args
+        coefficients += tuple(extract_coefficients(right))
     else:
         raise TypeError
 
